@@ -263,7 +263,7 @@ Definition st_of_alist (l : list (N * N)) : pmap := fun p => match find (fun x =
 Definition phase_render (c : ccfg) (manual : bool) (s : strat) (parts : list N) (lens st0 : list (N * N)) (take : N)
   : list (N * N) * bool * list N :=
   let total := fold_left (fun a x => a + snd x) lens 0 in
-  let fuel := N.to_nat (3 * total + 6 * nlen parts + 8) in
+  let fuel := N.to_nat ((total + 4) * (4 * nlen parts + 8)) in
   let '(w, ys, idle) := phase c manual parts (winit (of_alist lens 0) (st_of_alist st0) s) take fuel in
   (ys, idle, map (fun p => match w_st w p with Some o => o + 1 | None => 0 end) parts).
 
